@@ -187,6 +187,88 @@ def case_power(ctx, prop, N):
         ctx.prove("%s/guard: path satisfiable" % tag, hyp, z3.BoolVal(False), expect="sat", kind="vacuity", axioms=False)
 
 
+def case_power_history(ctx, prop, N):
+    """a sequence of calls with concrete parameter sets related by scalings (equal derived spacings, ratios, products):
+    power must be conserved in each call - nothing may be carried over from an earlier geometry"""
+    seq = [dict(wvl=Fr(1, 2), d1=Fr(1), d2=Fr(2), z=Fr(4), f=Fr(4)), dict(wvl=Fr(1), d1=Fr(2), d2=Fr(4), z=Fr(4), f=Fr(4)),
+           dict(wvl=Fr(1, 2), d1=Fr(2), d2=Fr(1), z=Fr(8), f=Fr(8)), dict(wvl=Fr(1, 2), d1=Fr(1), d2=Fr(2), z=Fr(-4), f=Fr(-4)),
+           dict(wvl=Fr(1), d1=Fr(1), d2=Fr(2), z=Fr(2), f=Fr(2))]
+    op = _op()
+    fn = getattr(op, prop)
+    ctx.encoded(fn)
+    ctx.bounds.update(N=N, history=[{k: str(v) for k, v in s_.items()} for s_ in seq], field="symbolic complex")
+    cut = FTCut(ctx, "cut", [], rewrite=False)
+    rp = lambda m: harness.pristine_call(replay_power_history, prop, N, [{k: float(v) for k, v in s_.items()} for s_ in seq])
+    for k, vals in enumerate(seq):
+        U = symarr("U%d" % k, (N, N), cplx=True)
+        sv = {kk: Sym(v) for kk, v in vals.items()}
+        args = dict(angularSpectrum=(U, sv["wvl"], sv["d1"], sv["d2"], sv["z"]), oneStepFresnel=(U, sv["wvl"], sv["d1"], sv["z"]),
+                    twoStepFresnel=(U, sv["wvl"], sv["d1"], sv["d2"], sv["z"]), lensAgainst=(U, sv["wvl"], sv["d1"], sv["f"]))[prop]
+        cut.calls.clear()
+        St.fork_div = True
+        with npx.symbolic(op, extra={op.__name__: {"fouriertransform": cut}}):
+            R = fn(*args)
+        St.fork_div = False
+        ctx.paths += 1
+        calls = list(cut.calls)
+        # total power through the cut contract: |raw|^2 sums are linked by N^2 factors; do it per stage as in case_power
+        d_in = sv["d1"]
+        if prop in ("angularSpectrum", "twoStepFresnel"):
+            d_out = sv["d2"]
+        elif prop == "oneStepFresnel":
+            d_out = sv["wvl"] * sv["z"] / (sv["d1"] * N)
+        else:
+            d_out = sv["wvl"] * sv["f"] / (sv["d1"] * N)
+        prev = U
+        factor = None
+        ok = True
+        stages = [c_["data"] for c_ in calls] + [R]
+        kap_total = Sym(1)
+        for si, cur in enumerate(stages):
+            cur = numpy.asarray(cur, dtype=object)
+            # the stage scalar is read off the first element and must hold for all (each proved)
+            i0 = tuple(0 for _ in cur.shape)
+            p0 = Sym.lift(prev[i0]).abs2()
+            c0 = Sym.lift(cur[i0]).abs2()
+            # ratio as a rational function of the first element's variables with |prev| = 1: substitute prev := 1
+            subs = [(Sym.lift(prev[i0]).re, z3.RealVal(1)), (Sym.lift(prev[i0]).im, z3.RealVal(0))]
+            kap = Sym(z3.simplify(z3.substitute(z(c0.re), *subs)))
+            for i in numpy.ndindex(*cur.shape):
+                goal = conj(eqs(Sym.lift(cur[i]).abs2(), Sym.lift(prev[i]).abs2() * kap))
+                v, _ = ctx.prove("call %d stage %d [%s]: |in|^2 = kappa |prev|^2 with one kappa for the whole array" % (k, si, ",".join(map(str, i))), [], goal, replay=rp, timeout_ms=20000)
+                if v != "unsat":
+                    ok = False
+                    break
+            if not ok:
+                break
+            kap_total = kap_total * kap
+            if si < len(calls):
+                c_ = calls[si]
+                sc_ = c_["scale"]
+                kap_total = kap_total * sc_ * sc_ * (Fr(N * N) if c_["kind"] == "D" else Fr(1, N * N))
+                prev = c_["out"]
+        if ok:
+            ctx.prove("call %d: power conserved (sum|Uout|^2 d_out^2 = sum|Uin|^2 d_in^2)" % k, [], conj(eqs(kap_total * d_out * d_out, d_in * d_in)), replay=rp, timeout_ms=60000)
+
+
+def replay_power_history(prop, N, seq):
+    op = _op()
+    fn = getattr(op, prop)
+    rng = rng_for("hist" + prop)
+    notes = []
+    bad = False
+    for k, v in enumerate(seq):
+        U = rand_complex(rng, (8, 8))
+        out = fn(*_concrete_args(prop, U, v))
+        d_out = _d_out(prop, 8)(v)
+        pin = float(numpy.sum(numpy.abs(U) ** 2)) * v["d1"] ** 2
+        pout = float(numpy.sum(numpy.abs(out) ** 2)) * d_out ** 2
+        if not numpy.isfinite(pout) or abs(pout - pin) > 1e-7 * pin:
+            bad = True
+            notes.append("call %d %s: power ratio %.6g" % (k, v, pout / pin))
+    return bad, dict(what="; ".join(notes) or "power conserved in every call of the sequence")
+
+
 def _rp(prop, N, m, names):
     vals = {k: m(v) for k, v in names.items()}
     return replay_power(prop, N, vals, _d_out(prop, N))
@@ -281,6 +363,7 @@ def build_cases(tier):
             cases.append(("linear/%s/N=%d" % (prop, N), case_linear, dict(prop=prop, N=N)))
         # monolithic cross-check (exact DFT, no cut): the power query decides quickly only for the single-transform
         # propagators; for the other two the monolithic run is used for translation validation only
+        cases.append(("power-history/%s/N=2" % prop, case_power_history, dict(prop=prop, N=2)))
         cases.append(("mono/%s/N=2" % prop, case_mono, dict(prop=prop, N=2, prove_power=prop in ("oneStepFresnel", "lensAgainst"))))
         if tier == "thorough":
             cases.append(("mono/%s/N=4" % prop, case_mono, dict(prop=prop, N=4, prove_power=False)))
